@@ -16,6 +16,19 @@ def check(cd, tree, extra):
     canon = from_entity(cd, x)
     om = OffsetMap()
     expected = ref_encode(cd, canon, om)
+    if len(expected) % 4 == 1:
+        # one case in four: the same value is first written to a stream that breaks at its k-th write.  The bytes of the
+        # NEXT, successful encode must still be the Kafka encoding (no leftovers of the failed attempt)
+        from ..streams import FaultySink, InjectedFault
+
+        try:
+            K.entity_writer(cd.cls)(FaultySink(len(expected) % 7, InjectedFault("stream broke")), x)
+        except InjectedFault:
+            from ..treeprop import note
+
+            note("preceded_by_failed_write")
+        except Exception:
+            pass  # reported by the real encode below
     try:
         got = K.encode(cd.cls, x)
     except Exception as e:
@@ -67,7 +80,7 @@ SPEC = TreeSpec(
     level="exploration",
     rule=(
         "one Hypothesis run per entity class; each case = canonical instance from a generated wire tree (arrays of 0-3 items and, in 1 of 25 array draws, of 63..1000 items, 16382..16384 for scalars); "
-        "oracle: entity_writer output == kv.refcodec.ref_encode (independent implementation of the protocol "
+        "(one case in four is preceded by a write of the same value to a sink that raises at its k-th write); oracle: entity_writer output == kv.refcodec.ref_encode (independent implementation of the protocol "
         "guide, KIP-482, KIP-893) byte for byte, first differing offset mapped to a field through the "
         "reference offset map. Non-trivial = null/empty/multi-item array, nested non-default tagged field, "
         "tag section with >=2 entries, nullable struct present/absent, string >=126 bytes, multi-byte text "
